@@ -204,9 +204,32 @@ def mask_alts(m):
     ((data >= lo) if incl else (data > lo)) - one alternative per consistent choice."""
     if parse_mask(m) is not None:
         return [((), m)]
+    # only the choice of the comparison operators is split (the two operands of the conjunction); choices nested deeper
+    # (a value range chosen by a conditional expression ...) stay inside the bounds, so that they still compare equal
+    # to the same bounds read elsewhere
+    if m[0] == "bin" and m[1] == "&":
+        ops = [m[2], m[3]]
+    elif m[0] == "call" and m[1] == G("numpy.logical_and") and len(m[2]) == 2:
+        ops = list(m[2])
+    else:
+        ops = None
     from vstat.terms import guarded_alts
-    out = [(tuple(l), mm) for l, mm in guarded_alts(m) if parse_mask(mm) is not None]
-    return out or [((), m)]
+    if ops is None:
+        return [(tuple(l), mm) for l, mm in guarded_alts(m) if parse_mask(mm) is not None] or [((), m)]
+    combos = [((), [])]
+    for op in ops:
+        alts_ = top_alts(op)
+        combos = [(l0 + tuple(l1), xs + [x]) for l0, xs in combos for l1, x in alts_]
+    out = []
+    for lits, xs in combos:
+        ks = set(lits)
+        if any(("not", l) in ks for l in ks):
+            continue
+        mm = ("bin", "&", xs[0], xs[1])
+        if parse_mask(mm) is not None:
+            out.append((tuple(dict.fromkeys(lits)), mm))
+    # a choice hidden deeper (the comparison function itself chosen by a flag): split everything
+    return out or [(tuple(l), mm) for l, mm in guarded_alts(m) if parse_mask(mm) is not None] or [((), m)]
 
 
 def edge_pair(lower, upper):
@@ -366,10 +389,10 @@ def number_slicer(prog, rep):
             arg = st.value.args[0]
             if isinstance(arg, ast.Name) and len(b.rd.reaching(arg.id, st)) > 1:
                 for d in b.rd.reaching(arg.id, st):
-                    for lits, mm in guarded_alts(b.def_term(d)):
+                    for lits, mm in mask_alts(b.def_term(d)):
                         sources.append((kind, holder, mm, tuple(pcs.of(d.stmt)) + tuple(lits)))
             else:
-                for lits, mm in guarded_alts(m):
+                for lits, mm in mask_alts(m):
                     sources.append((kind, holder, mm, tuple(lits)))
         else:
             for lits, mm in mask_alts(m):
